@@ -491,6 +491,7 @@ type c07Case struct {
 	Spec   *vgSpec      `json:"spec,omitempty"`
 	GI     *vgGISpec    `json:"gi,omitempty"`
 	Local  *vgLocalSpec `json:"local,omitempty"`
+	SP     *vgSPSpec    `json:"sp,omitempty"`
 	Corpus string       `json:"corpus,omitempty"`
 	PkgID  string       `json:"pkg,omitempty"`
 	Source string       `json:"source,omitempty"`
@@ -542,16 +543,27 @@ func c07RunGI(res *vx.Result, st *c07Stats, g *vgGISpec) {
 	c07RunSource(res, st, g.Key(), g.Source(), nil, g)
 }
 
+// c07RunSP judges one package of the family of interfaces with identical printed form.
+func c07RunSP(res *vx.Result, st *c07Stats, sp *vgSPSpec) {
+	c07RunSource(res, st, sp.Key(), vgFileText("p", sp.Decls()), nil, nil, nil, sp)
+}
+
 // c07RunLocal judges one package of the local-declaration family.
 func c07RunLocal(res *vx.Result, st *c07Stats, l *vgLocalSpec) {
 	c07RunSource(res, st, l.Key(), l.Source(), nil, nil, l)
 }
 
 // c07RunSource applies both oracles to one generated single-file package; exactly one of s, gi is set.
-func c07RunSource(res *vx.Result, st *c07Stats, key, src string, s *vgSpec, gi *vgGISpec, lo ...*vgLocalSpec) {
+func c07RunSource(res *vx.Result, st *c07Stats, key, src string, s *vgSpec, gi *vgGISpec, lo ...any) {
 	var local *vgLocalSpec
-	if len(lo) == 1 {
-		local = lo[0]
+	var sp *vgSPSpec
+	for _, x := range lo {
+		switch x := x.(type) {
+		case *vgLocalSpec:
+			local = x
+		case *vgSPSpec:
+			sp = x
+		}
 	}
 	c, errs := vgCheck("p", []vgSrcFile{{"p.go", src}}, nil)
 	if len(errs) > 0 {
@@ -569,7 +581,7 @@ func c07RunSource(res *vx.Result, st *c07Stats, key, src string, s *vgSpec, gi *
 			panic(err)
 		}
 	}); msg != "" {
-		res.Violate("panic|"+key, "unused.Analyzer panicked/failed on a well-typed package: "+msg+"\n"+src, c07Case{Spec: s, GI: gi, Local: local, Source: src})
+		res.Violate("panic|"+key, "unused.Analyzer panicked/failed on a well-typed package: "+msg+"\n"+src, c07Case{Spec: s, GI: gi, Local: local, SP: sp, Source: src})
 		return
 	}
 	res.Eval(1)
@@ -590,7 +602,7 @@ func c07RunSource(res *vx.Result, st *c07Stats, key, src string, s *vgSpec, gi *
 			res.Unassert("zero-reference alias " + m.Name + " not reported in " + key + " (an alias is not a named type in the statement's wording)")
 			continue
 		}
-		res.Violate("zeroref|"+m.Kind+"_"+m.Name+"|"+key, msg, c07Case{Spec: s, GI: gi, Local: local, Source: src})
+		res.Violate("zeroref|"+m.Kind+"_"+m.Name+"|"+key, msg, c07Case{Spec: s, GI: gi, Local: local, SP: sp, Source: src})
 	}
 	// supplement (DESIGN C07, rule 10.1): a generated iota group is reported as a whole or not at all;
 	// with the carried-over expression list a partial deletion would still type-check.
@@ -609,7 +621,7 @@ func c07RunSource(res *vx.Result, st *c07Stats, key, src string, s *vgSpec, gi *
 		}
 		if ra != rb {
 			res.Violate("constgroup|"+key, fmt.Sprintf("constant group (%s, %s) is reported in part only (%s reported=%v, %s reported=%v)\n%s",
-				s.name(i), s.grpB(i), s.name(i), ra, s.grpB(i), rb, src), c07Case{Spec: s, GI: gi, Local: local, Source: src})
+				s.name(i), s.grpB(i), s.name(i), ra, s.grpB(i), rb, src), c07Case{Spec: s, GI: gi, Local: local, SP: sp, Source: src})
 		}
 	}
 	// oracle 1
@@ -626,7 +638,7 @@ func c07RunSource(res *vx.Result, st *c07Stats, key, src string, s *vgSpec, gi *
 	if errs := c07Recheck("p", del.Sources, nil, "go1.26"); len(errs) > 0 {
 		msg := fmt.Sprintf("after removing every object U1000 reports (%s) the package no longer type-checks: %s\n--- package ---\n%s\n--- after deletion ---\n%s",
 			strings.Join(vgUnusedSet(ur), ", "), strings.Join(errs, "; "), src, del.Sources[0].Src)
-		res.Violate("deletion|"+key, msg, c07Case{Spec: s, GI: gi, Local: local, Source: src})
+		res.Violate("deletion|"+key, msg, c07Case{Spec: s, GI: gi, Local: local, SP: sp, Source: src})
 	}
 }
 
@@ -844,6 +856,8 @@ func TestVerifC07(t *testing.T) {
 		}
 		if cs.Spec != nil {
 			c07RunSpec(res, st, cs.Spec)
+		} else if cs.SP != nil {
+			c07RunSP(res, st, cs.SP)
 		} else if cs.Local != nil {
 			c07RunLocal(res, st, cs.Local)
 		} else if cs.GI != nil {
@@ -861,7 +875,7 @@ func TestVerifC07(t *testing.T) {
 	res.SetBudget(vx.Budget(100*time.Second, 17*time.Minute))
 	cpu0 := vgCPU()
 	b := c07Bounds()
-	var sampleN, giDone, localDone atomic.Int64
+	var sampleN, giDone, localDone, spDone atomic.Int64
 	part := os.Getenv("VERIF_C07_PART") // development aid: "gen" or "corpora"; empty = everything
 	if part == "corpora" {
 		b.MaxN = 1
@@ -923,6 +937,11 @@ func TestVerifC07(t *testing.T) {
 			}()
 		}
 		wg.Wait()
+		// fourth family: interfaces with identical printed form (small; sequential)
+		for _, sp := range vgSPEnumerate() {
+			c07RunSP(res, st, sp)
+			spDone.Add(1)
+		}
 		lm := locals[len(locals)*2/3]
 		res.Sample(map[string]any{"key": lm.Key(), "source": lm.Source()})
 		mid := gis[len(gis)*3/4]
@@ -936,6 +955,7 @@ func TestVerifC07(t *testing.T) {
 	})
 	res.Count("generic_interface_family_packages", giDone.Load())
 	res.Count("local_declaration_family_packages", localDone.Load())
+	res.Count("same_print_interface_family_packages", spDone.Load())
 	res.Count("generated_packages", specs)
 	res.Count("generated_edge_sets_inadmissible", inadm)
 	res.Count("generated_edge_sets_noncanonical(renaming)", noncanon)
